@@ -13,6 +13,7 @@ def main():
     byid = {f["id"]: f for f in d["findings"]}
     order = [f["id"] for f in d["findings"]]
     for path in sorted(glob.glob(os.path.join(VERIF, "findings", "C*.entries.json"))) + \
+            sorted(glob.glob(os.path.join(VERIF, "findings", "Spec.entries.json"))) + \
             sorted(glob.glob(os.path.join(VERIF, "findings", "C*.fixed.json"))):
         prop = os.path.basename(path).split(".")[0]
         fixed = path.endswith(".fixed.json")
